@@ -11,8 +11,8 @@ import CpModel.RedirQ
         COND = always|q|noq|v<k>             `-` = the empty string
 
   Output `S=<start_response calls code.excinfo,…> X=<escaped> R=<on_end_request runs>` plus, for B,
-  `K=<iterator close() calls> D=p<page chunks>.s<str chunks>.i<other chunks>.<bare+ep|none> N=<__next__/read calls>
-  F=<file close() calls> L=<logged close failures>`; for R, `U=<path?qs,…> D=p<n>.<flags>`.
+  `K=<iterator close() calls> D=p<page chunks>.s<str chunks>.i<other chunks>.<other bytes 0|1> N=<__next__/read calls>
+  F=<file close() calls> L=<logged close failures>`; for R, `U=<path?qs,…> D=p<n>.<other bytes 0|1>`.
 -/
 namespace CpModel.WsgiBoundaryProto
 open CpModel CpModel.WsgiBoundary CpModel.RedirQ
@@ -67,16 +67,16 @@ def b01 (b : Bool) : String := if b then "1" else "0"
 def showStarts (l : List (Nat × Bool)) : String :=
   if l.isEmpty then "-" else ",".intercalate (l.map fun s => s!"{s.1}.{b01 s.2}")
 
-def showFlags (out : List Chunk) : String :=
-  let fl := (if out.contains .bare then ["bare"] else []) ++ (if out.contains .errorPage then ["ep"] else [])
-  if fl.isEmpty then "none" else "+".intercalate fl
+/-- did the server receive bytes that are not page chunks (an error page, the trapper's bare body)? -/
+def showOther (out : List Chunk) : String :=
+  if out.contains .bare || out.contains .errorPage then "1" else "0"
 
 def showB (s : Srv) : String :=
   let c := s.counters
   let np := (s.out.filter (· == .item .bytes)).length
   let ns := (s.out.filter (· == .item .str)).length
   let ni := (s.out.filter (· == .item .int)).length
-  s!"S={showStarts s.starts} X={b01 s.escaped} R={s.released} K={c.close} D=p{np}.s{ns}.i{ni}.{showFlags s.out} N={c.next} F={c.fclose} L={s.closeLogged}"
+  s!"S={showStarts s.starts} X={b01 s.escaped} R={s.released} K={c.close} D=p{np}.s{ns}.i{ni}.{showOther s.out} N={c.next} F={c.fclose} L={s.closeLogged}"
 
 /-! ### R-plans -/
 
@@ -167,11 +167,11 @@ def showR (pl : RPlan) : String :=
   let headOnly := pl.head && n == 1
   match res with
   | .served .page =>
-    s!"S=200.0 X=0 R={n - 1 + closed} U={showUrls reqs} D=p{if headOnly then 0 else 1}.none"
+    s!"S=200.0 X=0 R={n - 1 + closed} U={showUrls reqs} D=p{if headOnly then 0 else 1}.0"
   | .served .notFound =>
-    s!"S=404.0 X=0 R={n - 1 + closed} U={showUrls reqs} D=p0.{if headOnly then "none" else "ep"}"
+    s!"S=404.0 X=0 R={n - 1 + closed} U={showUrls reqs} D=p0.{if headOnly then "0" else "1"}"
   | .failed _ => "bad-op"
-  | .loop _ => s!"S=500.1 X=0 R={n} U={showUrls reqs} D=p0.bare"
+  | .loop _ => s!"S=500.1 X=0 R={n} U={showUrls reqs} D=p0.1"
   | .outOfFuel => s!"S=- X=0 R={n} U={showUrls reqs} D=fuel"
 
 def step (line : String) : String :=
